@@ -151,8 +151,10 @@ OpCalls(p, ks, op, ok, by, dlen, tlen) ==
 (* accessors of a handle hd = [ks, ann, lgs] and whether they export key material to the caller  *)
 ExportingAccessors == {"entryKey",        \* Handle.Entry(i).Key()
                        "primaryKey",      \* Handle.Primary().Key()   (the same *Entry)
-                       "material",        \* insecurecleartextkeyset.KeysetMaterial / testkeyset.KeysetMaterial: every entry, in order
-                       "cleartextWrite"}  \* insecurecleartextkeyset.Write / testkeyset.Write = Writer.Write(KeysetMaterial(h))
+                       "material",        \* insecurecleartextkeyset.KeysetMaterial(h): every entry, in keyset order
+                       "testMaterial",    \* testkeyset.KeysetMaterial(h): the same function
+                       "cleartextWrite",  \* insecurecleartextkeyset.Write(h, w) = w.Write(KeysetMaterial(h))
+                       "testWrite"}       \* testkeyset.Write(h, w): likewise
 SilentAccessors    == {"entryMeta",       \* Entry(i).KeyID() / KeyStatus() / IsPrimary()
                        "keysetInfo", "string", "len",
                        "write", "writeAD", "writeCtx",    \* Handle.Write / WriteWithAssociatedData / WriteWithContext (encrypted)
